@@ -306,6 +306,32 @@ def check_seq(sq, fails, stats):
                     fail("C09_bucket_version_mono", "bucket version of entry %s went from %d to %d" % (key2, prev_ents[key2]["bver"], en["bver"]))
         prev_ents = ents_now
         prev_latest = lat
+    # stuck situations (leader store down / leaderless region / PD stale): no silent spinning — every failing round changes
+    # the cache, consults PD or returns an error
+    in_stuck, rounds_at = False, []
+    for ev in sq.events:
+        if ev[0] != "X":
+            continue
+        w0 = ev[1][0]
+        if w0 == "stuck begin":
+            in_stuck, rounds_at, stuck_kind = True, [], ev[1][1]
+        elif w0 == "stuck round" and in_stuck:
+            rounds_at.append(ev[2])
+        elif w0 == "stuck end" and in_stuck:
+            in_stuck = False
+            rounds_at.append(ev[2])
+            for a0, b0 in zip(rounds_at, rounds_at[1:]):
+                ops = sq.ops[a0:b0]
+                stats["oracle_evals"] += 1
+                stats["stuck_rounds"] = stats.get("stuck_rounds", 0) + 1
+                if not ops:
+                    continue
+                before = sq.ops[a0 - 1]["dump"] if a0 > 0 else None
+                served = any(e2[0] == "X" and e2[1][0].startswith("reply ok") and a0 <= e2[2] <= b0 for e2 in sq.events)
+                progress = served or any(o["qs"] or o["res"] == "err" for o in ops) or ops[-1]["dump"] != before
+                if not progress:
+                    fails.append(dict(oracle="C09_converges(no silent spin)", op=ops[-1], finding_class="", _seq=sq,
+                                      detail="stuck situation %s: a failing round neither changed the cache nor consulted PD nor returned an error" % stuck_kind))
     # convergence, and every served request reached the current leader of the region holding the key
     for ev in sq.events:
         if ev[0] != "X":
@@ -482,7 +508,7 @@ def main(tier, replay):
                     "that touch PD or the merger",
                samples=samples, traces_validated_against_impl=mstats.get("cases", 0), input_distribution=classes,
                sequences=mstats.get("seqs", 0), store_replies_compared=mstats.get("replies", 0), model_mismatches=len(mism), oracle_failures=len([f for f in fails if not f["finding_class"]]),
-               known_finding_hits=len([f for f in fails if f["finding_class"]]), bucket_lookups=stats.get("bucket_lookups", 0), observations={"bucket_fallback_unclamped": stats.get("obs_bucket_fallback_unclamped", 0)},
+               known_finding_hits=len([f for f in fails if f["finding_class"]]), bucket_lookups=stats.get("bucket_lookups", 0), stuck_rounds=stats.get("stuck_rounds", 0), observations={"bucket_fallback_unclamped": stats.get("obs_bucket_fallback_unclamped", 0)},
                convergence_rounds={str(k): n for k, n in sorted(stats["conv_rounds"].items())}, convergence_bound=CONV_BOUND)
     rc = v.finish()
     vlib.write_evidence(PID, cov, t0, violations=len(v.violations), level="proof",
